@@ -559,6 +559,63 @@ func run(c *runner.Ctx) {
 		}
 		compare(c, cs.v, fmt.Sprintf("named#%d %s", i, cs.desc), &nt, cs.outer)
 	}
+	// a caller-supplied function that panics *during* the walk (round 13). The panic may reach the caller - nothing is
+	// then claimed - but a call that returns normally has reached every marked sub-object: every clause the model
+	// expects (with the panicking function taken as silent) is in the result.
+	c.Space(pfx + "named/a-caller-supplied-function-panics-during-the-walk")
+	boom0 := func(errBuf *strings.Builder, validName, objName, fieldName string, tv reflect.Value) {
+		var m map[string]int
+		m[fieldName] = 1
+	}
+	for i, cs := range namedCases() {
+		if cs.outer != nil {
+			continue
+		}
+		for _, where := range []struct {
+			field string
+			typed interface{}
+		}{{"Name", nil}, {"N", Mid{}}, {"V", Chain{}}, {"V", Leaf{}}} {
+			if !c.Take() {
+				continue
+			}
+			vs := valid.NewVStruct().SetValidFn("boom", boom0)
+			o := walk.Opts{CallFns: map[string]walk.Fn{"boom": func(rule, objName, fieldName string, v reflect.Value) string { return "" }}}
+			if where.typed == nil {
+				vs.SetRule(valid.RM{where.field: "boom"})
+				o.Unscoped = map[string]string{where.field: "boom"}
+			} else {
+				vs.SetRule(valid.RM{where.field: "boom"}, where.typed)
+				o.Typed = map[reflect.Type]map[string]string{reflect.TypeOf(where.typed): {where.field: "boom"}}
+			}
+			var err error
+			pan, _, _ := runner.Guard(func() { err = vs.Valid(cs.v) })
+			c.Done(true, 1)
+			if pan {
+				c.Outcome("panic-reached-the-caller")
+				continue
+			}
+			got := ""
+			if err != nil {
+				got = err.Error()
+			}
+			exp := walk.Struct(cs.v, o)
+			if exp.Whole != "" {
+				continue
+			}
+			have := map[string]int{}
+			for _, cl := range strings.Split(got, "; ") {
+				have[cl]++
+			}
+			for _, cl := range exp.Multiset() {
+				if have[cl] == 0 {
+					c.Violation("returned-normally-without-reaching-a-marked-sub-object", map[string]interface{}{"object": fmt.Sprintf("named#%d %s", i, cs.desc), "panicking_function_on": where.field, "missing_clause": cl, "actual": got})
+					break
+				}
+				have[cl]--
+			}
+			c.Outcome("returned")
+		}
+	}
 	// the same objects, each right after a call whose walk was abandoned *behind a marker* by a caller-supplied function
 	// that panics (the caller recovers), and after a call that was refused before any walk: the next call starts afresh
 	c.Space(pfx + "named/after-an-abandoned-walk")
